@@ -156,7 +156,7 @@ def run(ctx):
     nm = 60 if ctx.tier == "quick" else 1500
     for mi in range(nm):
         tagged = mg.module(size=rnd.choice([0.5, 1.0, 2.0]))
-        version = 0x00010000 | (rnd.randrange(7) << 8)
+        version = instgen.some_version(rnd)
         bound = rnd.choice([1, 77, 4294967295, 1 + max([i.rid or 0 for _, i in tagged] + [0])])
         variants = [("layout-order", tagged)]
         # identical instructions repeated (nothing may be merged away): duplicates adjacent and at the section's end
@@ -243,6 +243,18 @@ def run(ctx):
             oracle.add_same(r, w2)
             nmut += 1
     stats["operand-word mutants"] = nmut
+    # version words: every minor and major byte; the two bytes that are not part of the version are not kept (the header is
+    # rebuilt from major.minor and the bound), so the word comes back as 0x00MMmm00
+    E0 = {r["name"]: r for r in g.core}
+    mm = [(2 << 16) | 0x11, 1]          # OpCapability Shader
+    for b in list(range(0, 256, 5)) + [15, 16, 17, 255]:
+        for word in ((1 << 16) | (b << 8), (b << 16) | (3 << 8), (b << 24) | 0x00010300 | (255 - b)):
+            w2 = [instgen.MAGIC, word, 0, 9, 0] + mm
+            r = "loadasm " + instgen.to_bytes(w2).hex()
+            reqs.append(r)
+            w3 = list(w2); w3[1] = word & 0x00ffff00
+            oracle.add_same(r, w3)
+    stats["version words"] = 3 * len(list(range(0, 256, 5)) + [15, 16, 17, 255])
     # the recorded finding: a parameter after the function's first label is filed in front of the blocks
     E = {r["name"]: r for r in g.core}
     g.next_id = 1
